@@ -5,6 +5,7 @@ import (
 	"crypto/tls"
 	"errors"
 	"io"
+	"net"
 	"os"
 	"strings"
 	"sync"
@@ -21,6 +22,7 @@ import (
 	"verifharness/lib"
 	"verifharness/memnet"
 	"verifharness/peer"
+	"verifharness/sctpmem"
 )
 
 // events
@@ -84,13 +86,16 @@ func (n *notifySet) state() (total, closed int) {
 
 // runC14 executes one ordering. waits=true: quiescence between events (the
 // ordering is the schedule); waits=false: events are fired without waiting.
-func runC14(c *ev.Case, ctx *lib.Ctx, order string, waits bool, lc *logCapture) {
+func runC14(c *ev.Case, ctx *lib.Ctx, order string, waits bool, lc *logCapture, sctpStream int) {
 	sig := func(op string) ev.Sig {
 		term := "?"
 		for i := 0; i < len(order); i++ {
 			if isTermination(order[i]) {
 				term = string(order[i])
 			}
+		}
+		if sctpStream >= 0 {
+			return ev.Sig{"op": op, "termination": term, "waits": waits, "transport": "sctp"}
 		}
 		return ev.Sig{"op": op, "termination": term, "waits": waits}
 	}
@@ -115,13 +120,40 @@ func runC14(c *ev.Case, ctx *lib.Ctx, order string, waits bool, lc *logCapture) 
 			prev = end
 		}
 	}
-	mc := memnet.NewConn()
 	var failNext atomic.Bool
-	mc.Script = func(seq int, b []byte) memnet.Outcome {
-		if failNext.CompareAndSwap(true, false) {
-			return memnet.Outcome{Accept: 7, Err: &memnet.TempError{Msg: "temporary transport error"}, StallAt: -1}
+	// the transport: an in-memory TCP-like connection, or (sctpStream >= 0) an SCTP
+	// association on which everything arrives on one stream
+	var tr struct {
+		feed        func(b []byte)
+		feedErr     func(err error)
+		feedWithErr func(b []byte, err error)
+		closeCount  func() int
+		rwc         net.Conn
+	}
+	if sctpStream < 0 {
+		mc := memnet.NewConn()
+		mc.Script = func(seq int, b []byte) memnet.Outcome {
+			if failNext.CompareAndSwap(true, false) {
+				return memnet.Outcome{Accept: 7, Err: &memnet.TempError{Msg: "temporary transport error"}, StallAt: -1}
+			}
+			return memnet.Outcome{Accept: -1, StallAt: -1}
 		}
-		return memnet.Outcome{Accept: -1, StallAt: -1}
+		tr.feed = func(b []byte) { mc.Feed(b) }
+		tr.feedErr, tr.feedWithErr, tr.closeCount, tr.rwc = mc.FeedErr, mc.FeedWithErr, mc.CloseCount, mc
+	} else {
+		as := sctpmem.New()
+		as.WriteScript = func(seq int, b []byte) (int, error) {
+			if failNext.CompareAndSwap(true, false) {
+				return 7, &memnet.TempError{Msg: "temporary transport error"}
+			}
+			return len(b), nil
+		}
+		msc := diam.VerifNewSCTPConn(as)
+		defer diam.VerifRelease(msc)
+		tr.feed = func(b []byte) { as.Feed(uint16(sctpStream), b) }
+		tr.feedErr = as.FeedErr
+		tr.feedWithErr = func(b []byte, err error) { as.Feed(uint16(sctpStream), b); as.FeedErr(err) }
+		tr.closeCount, tr.rwc = as.CloseCount, msc
 	}
 	ns := &notifySet{}
 	var hmu sync.Mutex
@@ -142,7 +174,7 @@ func runC14(c *ev.Case, ctx *lib.Ctx, order string, waits bool, lc *logCapture) 
 		}
 	})
 	before := len(lc.String())
-	conn, err := diam.NewConn(mc, "peer", h, ctx.Parser)
+	conn, err := diam.NewConn(tr.rwc, "peer", h, ctx.Parser)
 	if err != nil {
 		c.Fail(sig("setup"), nil, nil, "NewConn: %v", err)
 		return
@@ -160,7 +192,7 @@ func runC14(c *ev.Case, ctx *lib.Ctx, order string, waits bool, lc *logCapture) 
 		e := order[i]
 		switch e {
 		case eF:
-			mc.Feed(frags[fi])
+			tr.feed(frags[fi])
 			delivered += len(frags[fi])
 			fi++
 		case eNh:
@@ -179,27 +211,27 @@ func runC14(c *ev.Case, ctx *lib.Ctx, order string, waits bool, lc *logCapture) 
 			}
 		case tPANIC:
 			if r := delivered % c14MsgLen; r != 0 {
-				mc.Feed(stream[delivered : delivered+c14MsgLen-r])
+				tr.feed(stream[delivered : delivered+c14MsgLen-r])
 				delivered += c14MsgLen - r
 			}
-			mc.Feed(seqMsg(0xDEAD, 12))
+			tr.feed(seqMsg(0xDEAD, 12))
 		case tEOF:
-			mc.FeedEOF()
+			tr.feedErr(io.EOF)
 		case tERR:
-			mc.FeedErr(errors.New("connection reset by peer"))
+			tr.feedErr(errors.New("connection reset by peer"))
 		case tTEMP:
-			mc.FeedErr(&memnet.TempError{Msg: "temporary read error"})
+			tr.feedErr(&memnet.TempError{Msg: "temporary read error"})
 		case tBAD, tBADT:
 			// complete the message in progress first, so that the undecodable one starts on a boundary
 			if r := delivered % c14MsgLen; r != 0 {
-				mc.Feed(stream[delivered : delivered+c14MsgLen-r])
+				tr.feed(stream[delivered : delivered+c14MsgLen-r])
 				delivered += c14MsgLen - r
 			}
-			mc.Feed(badMessage(e == tBADT))
+			tr.feed(badMessage(e == tBADT))
 			if e == tBADT {
 				// more data already in flight behind the undecodable message
-				mc.Feed(seqMsg(98, 100))
-				mc.Feed(seqMsg(97, 4096))
+				tr.feed(seqMsg(98, 100))
+				tr.feed(seqMsg(97, 4096))
 			}
 		case tLC:
 			conn.Close()
@@ -213,7 +245,7 @@ func runC14(c *ev.Case, ctx *lib.Ctx, order string, waits bool, lc *logCapture) 
 			if e == tERRd {
 				rerr = errors.New("connection reset by peer")
 			}
-			mc.FeedWithErr(stream[delivered:end], rerr)
+			tr.feedWithErr(stream[delivered:end], rerr)
 			delivered = end
 		}
 		if isTermination(e) {
@@ -266,7 +298,7 @@ func runC14(c *ev.Case, ctx *lib.Ctx, order string, waits bool, lc *logCapture) 
 		c.Fail(sig("reader-panic"), nil, nil, "ordering %q: log says: %s", order, logs[:min(len(logs), 500)])
 		return
 	}
-	if mc.CloseCount() == 0 {
+	if tr.closeCount() == 0 {
 		c.Fail(sig("transport-not-closed"), nil, nil, "ordering %q: the transport was never closed", order)
 		return
 	}
@@ -417,17 +449,23 @@ func TestC14(t *testing.T) {
 	rec.Suite("orderings", len(orders), func(c *ev.Case) {
 		o := orders[c.I]
 		c.Class("term=%s/F=%d/h=%d/o=%d/t=%d", term(o), strings.Count(o, "F"), strings.Count(o, "h"), strings.Count(o, "o"), strings.Count(o, "t"))
-		run(c, term(o), func() { runC14(c, ctx, o, true, lc) })
+		run(c, term(o), func() { runC14(c, ctx, o, true, lc, -1) })
 		if c.WantSample() && len(o) > 5 {
 			c.Sample(map[string]any{"ordering": o, "legend": "F fragment, h CloseNotify from the next handler, o CloseNotify from another goroutine, E/R/B/T/L = EOF / read error / undecodable / undecodable+trailing / local Close, t CloseNotify after termination"})
 		}
 	})
 	rec.Exhaustive("orderings")
+	// a sample of the orderings on an SCTP association (in-memory backend)
+	rec.Suite("orderings-sctp", rec.N(600, 40000), func(c *ev.Case) {
+		o := orders[c.R.IntN(len(orders))]
+		c.Class("sctp/term=%s/F=%d/h=%d/o=%d/t=%d", term(o), strings.Count(o, "F"), min(strings.Count(o, "h"), 1), min(strings.Count(o, "o"), 1), min(strings.Count(o, "t"), 1))
+		run(c, term(o), func() { runC14(c, ctx, o, c.R.IntN(4) != 0, lc, c.R.IntN(5)) })
+	})
 	// the same orderings without quiescence points, for the racing orders
 	rec.Suite("racing", rec.N(1500, 100000), func(c *ev.Case) {
 		o := orders[c.R.IntN(len(orders))]
 		c.Class("racing/term=%s", term(o))
-		run(c, term(o), func() { runC14(c, ctx, o, false, lc) })
+		run(c, term(o), func() { runC14(c, ctx, o, false, lc, -1) })
 	})
 	// a TLS client connection whose handshake fails (DialTLS hands out the Conn before the
 	// handshake has run): CloseNotify requested before, during or after the failure
